@@ -9,6 +9,7 @@
      property tables' = tables (Trace_Immutable)."""
 import copy
 import dataclasses
+import json
 import random
 import zlib
 
@@ -288,8 +289,8 @@ def replay_behaviour(b):
             return "step %d %s: content %s expected %s" % (i, ev, got, h["after"])
         if ok and ev["op"] in ("add_row", "keep_rows") and ret != list(h["ret"]):
             return "step %d %s: returned %s expected %s" % (i, ev, ret, h["ret"])
-        if ok and ev["op"] == "slice" and ret != list(h["ret"]):
-            return "step %d %s: slice %s expected %s" % (i, ev, ret, h["ret"])
+        if ok and ev["op"] in ("slice", "getitem", "mask", "ids") and ret != list(h["ret"]):
+            return "step %d %s: %s returned %s expected %s" % (i, ev, ev["op"], ret, h["ret"])
     return None
 
 
@@ -483,12 +484,17 @@ def run():
     chk.exhaustive = True
     # (2) spec -> code
     nb = 0
-    for cls in ("mutations", "individuals"):
-        beh, _ = common.tlc_simulate_json("MC_TableOps", cfg="Sim_TableOps_" + cls, num=30 if QUICK else 600, depth=9,
-                                          seed=SEED + 3)
+    s2c_ops = {}
+    for cls in CLASSES:
+        beh, _ = common.tlc_simulate_json("MC_TableOps", cfg="Sim_TableOps_" + cls, num=(30 if cls in ("mutations", "individuals") else 6) if QUICK else 200,
+                                          depth=9, seed=SEED + 3)
         if not beh:
             raise common.MachineryError("no behaviours from MC_TableOps sim")
+        beh = list({json.dumps(b, sort_keys=True): b for b in beh}.values())
         for b in beh:
+            for h in b["hist"]:
+                k = "%s:%s:%d" % (cls, h["ev"]["op"], h["ok"])
+                s2c_ops[k] = s2c_ops.get(k, 0) + 1
             err = replay_behaviour(b)
             nb += 1
             chk.note_case(dict(s2c=b), any(h["ev"]["op"] == "keep_rows" and h["ok"] for h in b["hist"]))
@@ -497,6 +503,7 @@ def run():
             else:
                 chk.traces += 1
     chk.extra["s2c_behaviours"] = nb
+    chk.extra["s2c_steps_per_class_op_outcome"] = s2c_ops
     # (3) code -> spec
     cases = []
     for i in range(800 if QUICK else 12000):
